@@ -15,10 +15,8 @@ NAMES = "abc"
 # does not).  Signatures are stable; a finding is reported as KNOWN-FINDING when
 # /verif/known_findings.json lists its signature for C07.
 SIG_STALE = "C07-stale-wake"          # a waiter picked by one notify is woken/destroyed again through its other waittill_any registrations before its turn
-SIG_PTR = "C07-unresolved-result"     # println of a waitthread result after a killed callee shows an unresolved 'pointer' instead of NIL
 WHAT = {
     SIG_STALE: "a waiter picked by one notify is woken (or destroyed) a second time through its other waittill_any registrations by a notify/delete nested in the resume loop: wake-up without notify out of a later waittill (model = implementation != specification)",
-    SIG_PTR: "after a waitthread whose callee was killed (endon / removal of the awaited object) the caller's result is an unresolved 'pointer' value instead of NIL (model = implementation != specification)",
 }
 # C07_DEFECTS=order  also generate waitthread callees waiting under different names of one object
 #                    (the hash order in which UnregisterAll enumerates names decides who resumes first;
@@ -55,8 +53,6 @@ def analyse(lines):
             k += 1
         if stale_at is not None and stale_at <= k:
             sig = SIG_STALE
-        elif [x.replace("r=ptr", "r=nil") for x in m] == s:
-            sig = SIG_PTR
         else:
             sig = "model-vs-spec"
     return {"m": m, "s": s, "sig": sig}
@@ -90,7 +86,8 @@ class C07(vlib.HistoryProp):
         self.cache = {}           # model trace -> analysis (for signature())
 
     def assumptions(self):
-        return ["injected integral millisecond clock (hook H1), constant during an Execute; time scale 1 (the two time bases of the timer coincide: C06)",
+        return ["the harness prints an unresolved waitthread result as r=ptr (the model can express it as well): since f3056f7 none is ever observed",
+                "injected integral millisecond clock (hook H1), constant during an Execute; time scale 1 (the two time bases of the timer coincide: C06)",
                 "threads are straight-line programs of println / wait / waittill / waittill_any / notify / endon / delete / spawn / thread / waitthread / end; event names a, b, c (never \"delete\"/\"remove\", which the Listener destructor notifies)",
                 "script objects are plain Listeners held in level.o0..o2; a thread numbers itself from the counter level.ntid when it starts",
                 "the order in which con::set enumerates the NAMES of one listener (UnregisterAll, CancelWaitingAll) is modelled as c, b, a, \"\"; it is observable only through the resume order of the waitthread callers of waiters destroyed by ONE delete under DIFFERENT names: such programs are generated only with C07_DEFECTS=order"]
@@ -210,6 +207,80 @@ class C07(vlib.HistoryProp):
                                       "exhaustive-%d-%d-%d" % (la, lb, lm)))
                     k += 1
 
+    # a child thread of the endon family: its endon registrations, a marker, how it blocks
+    ENDON_CHILD = ["e0a w3", "e0b w3", "e0c w3", "e0a e0b w3", "e1a w3", "e0a e1b w3", "e0a t0a", "e0b t0a", "e0b e0b w3"]
+    ENDON_NOTIFY = ["n0a", "n0b", "n0c", "n1a", "n1b"]
+
+    def endon_child(self, spec, base):
+        toks = spec.split()
+        return ["th["] + toks[:-1] + ["p%d" % base, toks[-1], "p%d" % (base + 1), "]"]
+
+    def endon_names(self, tier, cases):
+        """one object (and a second one) holding endon registrations under several DIFFERENT names
+        by different threads, the names notified one after the other in every order: each thread
+        must be destroyed exactly when its own name is notified (the survivors print after `wait 3`)"""
+        k = len(cases)
+
+        def emit(children, notes):
+            nonlocal k
+            prog = ["s0", "s1"]
+            for i, c in enumerate(children):
+                prog += self.endon_child(c, 10 * (i + 1))
+            m = 50
+            for nt in notes:
+                prog += [nt, "p%d" % m]
+                m += 1
+            cases.append(Case("n%d" % k, "", ["S " + " ".join(prog), "T 5", "X", "X"], "endon-names"))
+            k += 1
+        # two children x every ordered pair of different notifies (+ one notify twice)
+        for c1, c2 in itertools.product(self.ENDON_CHILD, repeat=2):
+            for n1, n2 in itertools.permutations(self.ENDON_NOTIFY, 2):
+                if tier == "quick" and (n1[1] == "1" and n2[1] == "1"):
+                    continue
+                emit([c1, c2], [n1, n2])
+        # GA, GB, GC (and variants) x every order of two or three of the names
+        trios = [["e0a w3", "e0b w3", "e0c w3"], ["e0a w3", "e0b w3", "e0b t0a"], ["e0a e0b w3", "e0b w3", "e0c w3"],
+                 ["e0a w3", "e1a w3", "e0b w3"], ["e0c w3", "e0a e1b w3", "e0b w3"]]
+        if tier != "quick":
+            trios += [list(t) for t in itertools.product(self.ENDON_CHILD[:7], repeat=3)]
+        for trio in trios:
+            for r in (2, 3):
+                for notes in itertools.permutations(["n0a", "n0b", "n0c", "n1a", "n1b"][:3 if tier == "quick" else 5], r):
+                    emit(trio, list(notes))
+
+    WAIT_CHILD = ["t0a", "t0b", "t0c", "y0ab", "t1a", "y0bc", "e0b t0a"]
+
+    def waittill_names(self, tier, cases):
+        """the same for waittill: one object awaited under several different names by different
+        threads (the per-object map name -> waiters), every ordered pair of different notifies"""
+        k = len(cases)
+        for c1, c2 in itertools.product(self.WAIT_CHILD, repeat=2):
+            for n1, n2 in itertools.permutations(self.ENDON_NOTIFY, 2):
+                if tier == "quick" and (n1[1] == "1" and n2[1] == "1"):
+                    continue
+                prog = ["s0", "s1"] + self.endon_child(c1, 10) + self.endon_child(c2, 20) + [n1, "p50", n2, "p51"]
+                cases.append(Case("v%d" % k, "", ["S " + " ".join(prog), "S n0a p60 n0b p61 n0c p62 n1a p63", "X"], "waittill-names"))
+                k += 1
+
+    def endon_random(self, rng, cases, n):
+        k = len(cases)
+        for _ in range(n):
+            nth = rng.choice([2, 3, 4])
+            prog = ["s0", "s1"]
+            for i in range(nth):
+                ends = ["e%d%s" % (rng.randrange(2), rng.choice(NAMES)) for _ in range(rng.choice([1, 1, 2, 3]))]
+                blk = rng.choice(["w3", "w3", "t%d%s" % (rng.randrange(2), rng.choice(NAMES)), "wt[ w2 p99 end4 ]"])
+                prog += ["th["] + ends + ["p%d" % (10 * i + 10), blk, "p%d" % (10 * i + 11), "]"]
+            m = 60
+            for _ in range(rng.choice([2, 3, 4, 5])):
+                prog += ["n%d%s" % (rng.randrange(2), rng.choice(NAMES)), "p%d" % m]
+                m += 1
+                if rng.random() < 0.2:
+                    prog += ["w1", "p%d" % m]
+                    m += 1
+            cases.append(Case("q%d" % k, "", ["S " + " ".join(prog), "T 2", "X", "T 5", "X", "X"], "endon-random"))
+            k += 1
+
     def finding_templates(self, rng, cases, n):
         """histories aimed at the recorded findings (their own origins are assigned by classify)"""
         k = len(cases)
@@ -222,7 +293,7 @@ class C07(vlib.HistoryProp):
             k += 1
             kill = rng.choice(["e0%s p1 t0%s" % (a, b), "t0%s" % a, "e0%s p1 w2" % a])
             how = rng.choice(["n0%s" % a, "d0"])
-            cases.append(Case("f%d" % k, "", ["S s0 p7 wt[ " + kill + " p2 end5 ] p8 r", "S %s p3" % how, "T 3", "X", "X"], "template"))
+            cases.append(Case("f%d" % k, "", ["S s0 p7 wt[ " + kill + " p2 end5 ] p8 r", "S %s p3" % how, "T 3", "X", "X"], "regress-killed-callee"))
             k += 1
 
     def classify(self, cases):
@@ -239,7 +310,7 @@ class C07(vlib.HistoryProp):
                     keep.append(c)
                     continue
                 a = analyse(outs[c.id])
-                if a["sig"] in (SIG_STALE, SIG_PTR):
+                if a["sig"] == SIG_STALE:
                     self.observed.setdefault(a["sig"], []).append(c.id)
                     c.origin = "finding-" + a["sig"]
                 keep.append(c)
@@ -252,6 +323,9 @@ class C07(vlib.HistoryProp):
             lines = [l.strip() for l in open(p) if l.strip() and not l.startswith("#")]
             cases.append(Case("c_" + os.path.basename(p)[:-4], "", lines, "corpus"))
         self.exhaustive(tier, cases)
+        self.endon_names(tier, cases)
+        self.waittill_names(tier, cases)
+        self.endon_random(rng, cases, 600 if tier == "quick" else 20000)
         self.finding_templates(rng, cases, 40 if tier == "quick" else 400)
         k = len(cases)
         walks = ([(1, 2, 4, 2500), (2, 4, 4, 2500), (3, 6, 5, 1200), (4, 14, 6, 300)] if tier == "quick"
@@ -269,7 +343,7 @@ class C07(vlib.HistoryProp):
         # reported by check() below, not as a broken theorem
         if a["sig"]:
             self.cache[tuple(m)] = {"sig": a["sig"]}
-        return m, [], a["sig"] in (None, SIG_STALE, SIG_PTR)
+        return m, [], a["sig"] in (None, SIG_STALE)
 
     def canon_impl(self, lines):
         return [l[2:] for l in lines if l.startswith("m ")], [], [], None
@@ -289,14 +363,15 @@ HP = C07()
 def check(res, tier, seed):
     res.cov["rule"] += ("C07: corpus; every program `spawn o0; thread A; [thread B;] M` with A, B, M sequences over "
                         "{waittill a, notify a, delete, endon a, wait 1, waittill_any a b, notify b} (thorough: + waittill b, spawn, wait 0, endon b; longer) "
-                        "x two frame schedules; templates aimed at the recorded findings; seeded random histories of 1-4 host-started threads, up to 6 script threads, "
+                        "x two frame schedules; the endon family: 2-3 threads holding endon registrations under DIFFERENT names (a, b, c; two names in one thread; endon + waittill of one name; "
+                        "a second object) x every order of 2-3 notifies, the same for waittill under different names, and random endon/notify mixes; templates aimed at the recorded finding and at waitthread callees that are killed (regression family of the fixed f3056f7); seeded random histories of 1-4 host-started threads, up to 6 script threads, "
                         "2-3 objects, names a/b/c, nested thread/waitthread bodies to depth 3, waits {0,1,1,2,3} ms, frames with and "
                         "without clock advance; markers around every blocking instruction; every candidate is first run on model and specification: "
                         "histories on which model and specification differ by a recorded finding get the origin finding-<signature>; non-trivial = one host operation made >= 2 threads print. ")
     vlib.history_check(res, HP, tier, seed)
     res.cov["findings_observed"] = {k: len(v) for k, v in HP.observed.items()}
     recorded = {f.get("signature"): f for f in vlib.known_findings("C07")}
-    for sig in (SIG_STALE, SIG_PTR):
+    for sig in (SIG_STALE,):
         if HP.observed.get(sig):
             if sig in recorded:
                 res.known_finding("%s: %s (%d generated histories, e.g. case %s)" % (sig, recorded[sig].get("what", WHAT[sig]), len(HP.observed[sig]), HP.observed[sig][0]))
